@@ -157,7 +157,7 @@ pub fn eval(case: &Case) -> Verdict {
     }
     let a_op = br.a_op.as_ref().map(|r| &r.outcomes).unwrap_or(&br.a.outcomes);
     if a_op.len() != br.a.outcomes.len() {
-        v.label("class:sc_fence_order");
+        v.label("class:operational_order");
     }
     if let Some(x) = l.iter().find(|x| !br.u.outcomes.contains(*x)) {
         return v.fail("forbidden_outcome", format!("values read around the loop that C11/RC11 forbids: {}", fmt_outcome(x)));
@@ -165,7 +165,7 @@ pub fn eval(case: &Case) -> Verdict {
     let missing: Vec<&Outcome> = a_op.iter().filter(|x| !l.contains(*x)).collect();
     if missing.is_empty() {
         if let Some(m) = br.a.outcomes.iter().find(|x| !l.contains(*x)) {
-            return v.fail("missing_outcome_fence_order", format!("an exit outcome of the loop is never explored, and every execution producing it orders SeqCst events against po ∪ rf: {}", fmt_outcome(m)));
+            return v.fail(if crate::known::cas_other_writer(p) { "missing_outcome_cas_order" } else { "missing_outcome_fence_order" }, format!("an exit outcome of the loop is never explored, and every execution producing it orders SeqCst events against po ∪ rf: {}", fmt_outcome(m)));
         }
     }
     if let Some(m) = missing.first() {
